@@ -258,7 +258,7 @@ def replay(case, bucket=None):
         for s in range(20):
             cell(acc, random.Random(s), cfgov, a, u, ha, size, off, bn, base, big, acc_name, mode, iswrite, mpu)
         return sorted(acc.viol)
-    if bucket and bucket.startswith('C13:fetch'):
+    if bucket and bucket.startswith('C13:fetch-depends'):
         r = diff.run(case)
         return [e1prop.sig(r.diffs)] if r.diffs else []
     return e1prop.replay(PLAN, case)
